@@ -20,6 +20,11 @@
 (*   1 approximate (a)   2 moderate (a, o)   3 strict (a, o, v)            *)
 (*   4 by ids - which, when ids are ignored (IdsIgnored), falls back on    *)
 (*     the strict comparison so that ignored ids do not steer alignment    *)
+(* Kind "outputs": the same algorithm aligns the outputs of one cell under *)
+(* two predicates (approximately equal data; strictly equal data and -     *)
+(* unless the details are ignored - equal execution counts); the flag      *)
+(* IdsIgnored then stands for "details ignored" and the ignored part of an *)
+(* item is its execution count (field o).                                  *)
 (*                                                                         *)
 (* A state is a pair of cell lists; TLC checks for EVERY pair of the       *)
 (* universe: SnakesOK (monotone, disjoint, in bounds, every matched pair   *)
@@ -31,7 +36,10 @@
 (***************************************************************************)
 EXTENDS Naturals, Sequences, FiniteSets, TLC, Json
 
-CONSTANTS MaxLen, EMIT, IdsIgnored, NIds
+CONSTANTS MaxLen, EMIT, IdsIgnored, NIds,
+          Kind       \* "cells" | "outputs": the same algorithm aligns the outputs of a cell, under two predicates; the
+                     \* fields then mean: a class of approximately equal data, v version inside the class, o the
+                     \* execution count, and IdsIgnored says whether the DETAILS (execution counts) are ignored
 
 VARIABLES A, B, phase
 vars == <<A, B, phase>>
@@ -54,8 +62,14 @@ Approx(x, y)   == x.a = y.a
 Moderate(x, y) == x.a = y.a /\ x.o = y.o
 Strict(x, y)   == x.a = y.a /\ x.o = y.o /\ x.v = y.v
 ByIds(x, y)    == IF IdsIgnored THEN Strict(x, y) ELSE (x.id # 0 /\ x.id = y.id)
-P(l, x, y) == CASE l = 1 -> Approx(x, y) [] l = 2 -> Moderate(x, y) [] l = 3 -> Strict(x, y) [] OTHER -> ByIds(x, y)
-TopLevel == 4
+\* outputs: approximately equal data; strictly equal data and - unless the details are ignored - equal execution counts
+OutApprox(x, y) == x.a = y.a
+OutStrict(x, y) == x.a = y.a /\ x.v = y.v /\ (IdsIgnored \/ x.o = y.o)
+IsCells == Kind = "cells"
+P(l, x, y) == IF IsCells
+              THEN CASE l = 1 -> Approx(x, y) [] l = 2 -> Moderate(x, y) [] l = 3 -> Strict(x, y) [] OTHER -> ByIds(x, y)
+              ELSE IF l = 1 THEN OutApprox(x, y) ELSE OutStrict(x, y)
+TopLevel == IF IsCells THEN 4 ELSE 2
 
 (***************************************************************************)
 (* bruteforce_compute_snakes on the rectangle (i0, j0, i1, j1) of X, Y     *)
@@ -148,7 +162,8 @@ Spec == Init /\ [][Next]_vars
 Ready == phase = "pair"
 
 S == Align(A, B)
-StripIds(X) == [k \in 1..Len(X) |-> [X[k] EXCEPT !.id = 0]]
+\* the part of an item the ignore option hides: the id of a cell / the execution count of an output
+StripIds(X) == [k \in 1..Len(X) |-> IF IsCells THEN [X[k] EXCEPT !.id = 0] ELSE [X[k] EXCEPT !.o = 1]]
 
 SnakesOK == Ready =>
   /\ \A k \in 1..Len(S) :
@@ -181,7 +196,7 @@ IgnoredIdsIrrelevant == (Ready /\ IdsIgnored) => S = Align(StripIds(A), StripIds
 ExchangedIdsInvisible == (Ready /\ IdsIgnored /\ StripIds(A) = StripIds(B)) => Matched = Diagonal
 \* with ids in force, two cells that carry the same id are aligned whenever they are the only cells with ids
 SoleIdAligned ==
-  (Ready /\ ~IdsIgnored) =>
+  (Ready /\ ~IdsIgnored /\ IsCells) =>
     \A i \in 1..Len(A), j \in 1..Len(B) :
       (A[i].id # 0 /\ A[i].id = B[j].id /\ Cardinality({q \in 1..Len(A) : A[q].id # 0}) = 1
                                         /\ Cardinality({q \in 1..Len(B) : B[q].id # 0}) = 1)
